@@ -1,6 +1,6 @@
 SPECIFICATION MCSpec
 CONSTANTS
-  MaxSamples = 5
+  MaxSamples = 4
   Kinds = {"pressure_above", "pressure_rising_beyond", "memory_above", "memory_reclaim"}
   Durs = {0, 1, 2}
   DTs = {1, 999, 1000, 1001, 2500}
